@@ -67,7 +67,7 @@ def module_src(m) -> str:
     return "\n".join(L) + "\n"
 
 
-def observe(api: dict, mid: str, text_valid: bool) -> dict:
+def observe(api: dict, mid: str, text_valid: bool, pk: str = PKG) -> dict:
     pre = mid + "/"
     entries = []
     dups = []
@@ -86,7 +86,7 @@ def observe(api: dict, mid: str, text_valid: bool) -> dict:
             refs, flags, supers = [], [], []
             if kind == "class":
                 refs = e["attributes"] + e["methods"] + e["classes"] + ([e["constructor"]["id"]] if e.get("constructor") else [])
-                supers = [s[len(PKG) + 1:] if s.startswith(PKG + ".") else s for s in e["superclasses"]]
+                supers = [s[len(pk) + 1:] if s.startswith(pk + ".") else s for s in e["superclasses"]]
             elif kind == "func":
                 refs = e["parameters"] + e["results"]
                 flags = [f for f, k2 in (("static", "is_static"), ("classmethod", "is_class_method"), ("property", "is_property")) if e.get(k2)]
@@ -104,52 +104,64 @@ def main(v: Verdict) -> None:
     mods = generate(v, "Walker", "C12_MC.cfg" if TIER == "quick" else "C12_MC_thorough.cfg", min_records=200)
     if not mods:
         return
-    files = {"__init__.py": "", "basemod.py": BASE}
+    # the modules are spread over packages of at most CHUNK modules that are analysed side by side (the tool's run time grows faster
+    # than linearly with the number of modules of one package)
+    CHUNK = 1200
     for k, m in enumerate(mods):
         m["id"] = k + 1
         m["file"] = f"wm{k + 1:04d}" + ("__init__" if "initlike-filename" in m["flags"] else "")
-        if "initlike-filename" in m["flags"]:
-            files[f"{m['file']}.py"] = module_src(m)
-        elif "pkgfile" in m["flags"]:      # the declarations live in the package file itself
-            files[f"wm{k + 1:04d}/__init__.py"] = module_src(m)
-            files[f"wm{k + 1:04d}/fillmod.py"] = "def fill() -> int:\n    ...\n"
-        else:
-            files[f"wm{k + 1:04d}.py"] = module_src(m)
-    pkg = write_pkg(files, PKG)
-    r = run_many([{"src": pkg, "opts": Opts(), "timeout": 900, "trace_walk": True}])[0]
-    if r.exit != "ok":
-        v.machinery(f"run failed: {r.exit} {r.exc} {r.frame} {r.msg}")
-        return
-    text = next((t for p, t in r.files.items() if p.endswith("__api.json")), None)
-    try:
-        api = json.loads(text)
-        valid = True
-    except (TypeError, ValueError):
-        api, valid = {}, False
-    lists_sorted = all([e["id"] for e in api.get(k, [])] == sorted(e["id"] for e in api.get(k, []))
-                       for k in ("modules", "classes", "functions", "results", "enums", "enum_instances", "attributes", "parameters"))
-    obs = []
-    for m in mods:
-        o = observe(api, f"{PKG}/{m['file']}", valid)
-        o["sorted"] = lists_sorted
-        o["schema"] = api.get("schemaVersion", 0) if isinstance(api.get("schemaVersion", 0), int) else 0
-        obs.append({"id": m["id"], "kind": "inventory", "sc": {k: m[k] for k in ("k", "name", "flags", "ch")}, "obs": o})
-    # the walk itself, module by module, as recorded at the walker's enter/leave callbacks
-    per_mod, cur = {}, None
-    for ev in r.walk:
-        if ev[1] == "module" and ev[0] == "enter":
-            cur = ev[2]
-            per_mod[cur] = []
-        if cur is not None:
-            per_mod[cur].append(ev)
-        if ev[1] == "module" and ev[0] == "leave":
-            cur = None
-    n_walk = 0
-    for m in mods:
-        evs = per_mod.get(f"{PKG}.{m['file']}")
-        if evs is not None:
-            n_walk += len(evs)
-            obs.append({"id": f"walk:{m['id']}", "kind": "walk", "sc": {k: m[k] for k in ("k", "name", "flags", "ch")}, "obs": {"walk": evs}})
+        m["pkg"] = f"{PKG}{k // CHUNK:02d}"
+    jobs, pkgs = [], sorted({m["pkg"] for m in mods})
+    for pk in pkgs:
+        files = {"__init__.py": "", "basemod.py": BASE}
+        for m in mods:
+            if m["pkg"] != pk:
+                continue
+            src = module_src(m).replace(f"{PKG}.basemod", f"{pk}.basemod")
+            if "initlike-filename" in m["flags"]:
+                files[f"{m['file']}.py"] = src
+            elif "pkgfile" in m["flags"]:      # the declarations live in the package file itself
+                files[f"{m['file']}/__init__.py"] = src
+                files[f"{m['file']}/fillmod.py"] = "def fill() -> int:\n    ...\n"
+            else:
+                files[f"{m['file']}.py"] = src
+        jobs.append({"src": write_pkg(files, pk), "opts": Opts(), "timeout": 1500, "trace_walk": True})
+    runs = dict(zip(pkgs, run_many(jobs)))
+    obs, n_walk = [], 0
+    for pk in pkgs:
+        r = runs[pk]
+        if r.exit != "ok":
+            v.machinery(f"run of {pk} failed: {r.exit} {r.exc} {r.frame} {r.msg}")
+            return
+        text = next((t for p, t in r.files.items() if p.endswith("__api.json")), None)
+        try:
+            api = json.loads(text)
+            valid = True
+        except (TypeError, ValueError):
+            api, valid = {}, False
+        lists_sorted = all([e["id"] for e in api.get(k, [])] == sorted(e["id"] for e in api.get(k, []))
+                           for k in ("modules", "classes", "functions", "results", "enums", "enum_instances", "attributes", "parameters"))
+        # the walk itself, module by module, as recorded at the walker's enter/leave callbacks
+        per_mod, cur = {}, None
+        for ev in r.walk:
+            if ev[1] == "module" and ev[0] == "enter":
+                cur = ev[2]
+                per_mod[cur] = []
+            if cur is not None:
+                per_mod[cur].append(ev)
+            if ev[1] == "module" and ev[0] == "leave":
+                cur = None
+        for m in mods:
+            if m["pkg"] != pk:
+                continue
+            o = observe(api, f"{pk}/{m['file']}", valid, pk)
+            o["sorted"] = lists_sorted
+            o["schema"] = api.get("schemaVersion", 0) if isinstance(api.get("schemaVersion", 0), int) else 0
+            obs.append({"id": m["id"], "kind": "inventory", "sc": {k: m[k] for k in ("k", "name", "flags", "ch")}, "obs": o})
+            evs = per_mod.get(f"{pk}.{m['file']}")
+            if evs is not None:
+                n_walk += len(evs)
+                obs.append({"id": f"walk:{m['id']}", "kind": "walk", "sc": {k: m[k] for k in ("k", "name", "flags", "ch")}, "obs": {"walk": evs}})
     v.extra["walk_events_validated"] = n_walk
     bad = judge(v, "C12_Trace", obs)
     by_id = {o["id"]: o for o in obs}
